@@ -193,7 +193,7 @@ def digital_reference(n, instrs, procs, scale):
 def tree_oracle(args):
     n, instrs, procs = args["n"], [tuple(x) for x in args["instrs"]], args["procs"]
     errs = []
-    for scale in (1.0, 0.5):
+    for scale in (1.0, 0.5, 0.25):
         avg, tot, leaves = digital_tree_average(n, instrs, procs, scale)
         if abs(tot - 1) > 1e-8:
             return f"probabilities of the {leaves} outcome paths sum to {tot:.10f}"
@@ -202,8 +202,8 @@ def tree_oracle(args):
     if errs[0] > 6.0 * g * g + 1e-9:
         return (f"tree-averaged observables differ from 'gate then local Lindblad channel' by {errs[0]:.3e} (> 6 g^2 = {6 * g * g:.3e}); "
                 f"gates {[(k, q) for (_, k, q, _, _) in instrs]}, processes {[(p['name'], p['sites'], p['strength']) for p in procs]}")
-    if errs[0] > 1e-7 and errs[1] > errs[0] / 3.0:
-        return (f"halving all strengths reduces the error only from {errs[0]:.3e} to {errs[1]:.3e} (not quadratic); gates "
+    if errs[0] > 1e-7 and errs[1] > 0.36 * errs[0] and errs[2] > 0.36 * errs[1]:
+        return (f"halving all strengths twice reduces the error only from {errs[0]:.3e} to {errs[1]:.3e} to {errs[2]:.3e} (not quadratic); gates "
                 f"{[(k, q) for (_, k, q, _, _) in instrs]}, processes {[(p['name'], p['sites'], p['strength']) for p in procs]}")
     return None
 
